@@ -7,6 +7,7 @@ import (
 	"github.com/goghcrow/yae/parser/pos"
 	"github.com/goghcrow/yae/parser/token"
 	"github.com/goghcrow/yae/util"
+	"github.com/goghcrow/yae/verifhook"
 )
 
 // parser 使用了 Top Down Operator Precedence
@@ -28,6 +29,7 @@ func NewParser(ops []oper.Operator) *parser {
 }
 
 func (p *parser) Parse(toks []*token.Token) ast.Expr {
+	verifhook.Touch(p, true, "parser.Parse")
 	p.idx = 0
 	p.toks = toks
 
@@ -99,6 +101,7 @@ func (p *parser) any(expect string, fs ...func(p *parser) ast.Expr) (expr ast.Ex
 
 // parser bp > rbp 的表达式
 func (p *parser) expr(rbp oper.BP) ast.Expr {
+	verifhook.Step("parser.expr")
 	t := p.eat()
 	// tok 必须有 prefix 解析器, 否则一定语法错误
 	pre := p.mustPrefix(t)
